@@ -25,6 +25,7 @@ def run(ctx, rep):
     textparse.rule_raw_number_subscripts(ctx, rep, "C04-R13")
     builtins.rule_live_container_iteration(ctx, rep, "C04-R14")
     builtins.rule_sort_on_a_copy(ctx, rep, "C04-R15")
+    pairing.rule_undo_only_what_was_done(ctx, rep, "C04-R16")
     rep.undecided += [
         "that reported line/column are the right numbers (value property)",
         "RecursionError beyond the documented parser nesting limit",
